@@ -5,6 +5,7 @@ import (
 	"go/types"
 	"regexp"
 	"sort"
+	"strconv"
 	"strings"
 
 	"golang.org/x/tools/go/ssa"
@@ -27,8 +28,9 @@ func runC03(c *Ctx, r *Report) {
 	c01R3(c, r, "C03.R7")
 	c03Wrappers(c, r, "C03.R10")
 	c03Write(c, r, "C03.R11")
-	c09R7(c, r, "C03.R9") // UDP downstream: a datagram that exactly fills the read buffer must not produce a spurious end of stream
-	c01R4(c, r, "C03.R8") // what was prefetched for matching is what the relay later replays: prefetch appends exactly what it read
+	c05R23(c, r, "C03.R12") // the relay runs without the matching deadline: a deadline left armed on the client socket cuts the client->upstream direction when it passes
+	c09R7(c, r, "C03.R9")   // UDP downstream: a datagram that exactly fills the read buffer must not produce a spurious end of stream
+	c01R4(c, r, "C03.R8")   // what was prefetched for matching is what the relay later replays: prefetch appends exactly what it read
 }
 
 func c03Proxy(c *Ctx, r *Report) {
@@ -97,7 +99,7 @@ func c03ProxyCalls(sc *Scenario) {
 		switch {
 		case callee == "io.TeeReader":
 			return symRef(fmt.Sprintf("tee(%s,%s)", args[0].Desc, args[1].Desc), false), true
-		case callee == "io.Copy":
+		case callee == "io.Copy", callee == "io.CopyBuffer":
 			return SV{K: "tuple", Desc: "copy", Elems: []SV{{K: "int", Desc: "n"}, symNil()}}, true
 		case strings.HasPrefix(callee, "(*sync/atomic.Bool)"), strings.HasPrefix(callee, "(*sync.WaitGroup)"):
 			return symOpaque("sync"), true
@@ -130,19 +132,45 @@ func c03ProxyCheck(c *Ctx, r *Report, fn *ssa.Function, fnName string, paths []P
 				tees = append(tees, e)
 			case e.Kind == "call" && e.What == "io.Copy":
 				copies = append(copies, e)
-			case e.Kind == "call" && e.What == "(*sync.WaitGroup).Add":
-				adds++
-				pendingAdd++
-				if len(e.Args) == 2 && e.Args[1] != "1" {
-					p3 = append(p3, "a copy-back goroutine is counted with wg.Add("+e.Args[1]+"): Wait returns before the copies end, or never")
+			case e.Kind == "call" && e.What == "io.CopyBuffer":
+				// the same relay with a buffer of the caller's: it must not be smaller than io.Copy's own (32 KiB), or
+				// datagrams of a packet-oriented upstream that the plain relay passes whole are cut to the buffer size
+				copies = append(copies, e)
+				okBuf := false
+				if len(e.Args) == 3 {
+					if v, ok := p.Heap["len:"+e.Args[2]]; ok && v.Known && v.N >= 32*1024 {
+						okBuf = true
+					}
+					if m := makeLenRe.FindStringSubmatch(e.Args[2]); m != nil {
+						if n, err := strconv.ParseInt(m[1], 10, 64); err == nil && n >= 32*1024 {
+							okBuf = true
+						}
+					}
 				}
+				if !okBuf {
+					p1 = append(p1, "the relay copies with a buffer of its own whose size is not known to be at least io.Copy's 32 KiB ("+strings.Join(e.Args, ", ")+"): a datagram from a packet upstream larger than the buffer is truncated")
+				}
+			case e.Kind == "call" && e.What == "(*sync.WaitGroup).Add":
+				// the amount added (one per goroutine, or all of them at once before the first one starts)
+				amount := int64(-1)
+				if len(e.Args) == 2 {
+					if v, err := strconv.ParseInt(e.Args[1], 10, 64); err == nil {
+						amount = v
+					}
+				}
+				if amount < 0 {
+					p3 = append(p3, "wg.Add("+strings.Join(e.Args[1:], ",")+") with an amount the evaluation cannot determine")
+					amount = 0
+				}
+				adds += int(amount)
+				pendingAdd += int(amount)
 			case e.Kind == "go":
 				goIdx = append(goIdx, i)
 				if strings.Contains(e.What, "proxy$1") {
-					if pendingAdd == 0 {
+					if pendingAdd <= 0 {
 						lastAddBeforeGo = false
 					}
-					pendingAdd = 0
+					pendingAdd--
 				}
 			case (e.Kind == "defer" || e.Kind == "rundefer") && e.What == "(*sync.WaitGroup).Done":
 				if e.Kind == "rundefer" {
@@ -214,7 +242,7 @@ func c03ProxyCheck(c *Ctx, r *Report, fn *ssa.Function, fnName string, paths []P
 		}
 		// R3
 		if adds != 2 || dones != 2 || !lastAddBeforeGo {
-			p3 = append(p3, fmt.Sprintf("WaitGroup protocol broken: %d Add, %d deferred Done for 2 copy-back goroutines (Add before go: %v)", adds, dones, lastAddBeforeGo))
+			p3 = append(p3, fmt.Sprintf("WaitGroup protocol broken: %d added, %d deferred Done for 2 copy-back goroutines (every goroutine counted before it starts: %v): Wait returns before the copies end, or never", adds, dones, lastAddBeforeGo))
 		}
 		if waitIdx < 0 || recvIdx < 0 || recvIdx < waitIdx {
 			p3 = append(p3, "proxy can return before wg.Wait() and the pump's completion signal")
@@ -237,6 +265,8 @@ func c03ProxyCheck(c *Ctx, r *Report, fn *ssa.Function, fnName string, paths []P
 }
 
 // c03Dial evaluates dialPeers; with headers=true the PROXY header obligations (C12) are reported instead.
+var makeLenRe = regexp.MustCompile(`^make#\d+\((\d+)\)`)
+
 var dialAddrRe = regexp.MustCompile(`^resolved\(hostport\(peers\[(\d)\]\.address,(\d+)\)\)$`)
 
 func c03Dial(c *Ctx, r *Report, rule string, headers bool) {
